@@ -106,6 +106,7 @@ impl C01 {
                 .iter()
                 .any(|s| !matches!(c.u.packages[s.pkg].hint, Hint::None));
             let soft_acc = refs.iter().any(|s| c.problem.soft.contains(s));
+            size_labels(&c.u, &mut rep.labels);
             if hinted {
                 rep.labels.push("hinted-in-solution");
             }
@@ -118,7 +119,7 @@ impl C01 {
     }
 }
 
-struct_property!(C01, "C01", "tape -> universe (<=9 packages, <=5 candidates, sparse ids, unions, locks, exclusions, Unknown, missing, cycles, all hint modes) + problem (requirements, constraints, soft) + runtime (sync / async schedule); every Ok(S) is checked with the C01 validity predicate over the provider tables. Non-trivial: Ok(S) with |S|>=2 and (>=1 learnt clause or >=1 restart or a hinted package in S or an accepted soft solvable). Distinct = distinct hash of the decoded case.");
+struct_property!(C01, "C01", "tape -> universe (<=9 packages, <=5 candidates, sparse ids, unions, locks, exclusions, Unknown, missing, cycles, all hint modes) + problem (requirements, constraints, soft) + runtime (sync / async schedule); every Ok(S) is checked with the C01 validity predicate over the provider tables. Stage huge: 2..5 packages, the last with 2..5000 candidates (log-uniform). Non-trivial: Ok(S) with |S|>=2 and (>=1 learnt clause or >=1 restart or a hinted package in S or an accepted soft solvable). Distinct = distinct hash of the decoded case.", |s: &C01| if s.stage == "huge" { 60_000usize } else { 1600 });
 
 // =============================================================================== C02
 
